@@ -1028,6 +1028,15 @@ def client_trace(options_extra, server_chunks, poll, seed_hosts, accept, srcs=No
         real_connect_fn = bd.ssh.connect
 
         def connect_then_script(*a, **k):
+            # the session options the client hands to the packager must be the values it was called with
+            want = {"latency_control": options_extra.get("latency_control", False),
+                    "latency_buffer_size": options_extra.get("latency_buffer_size", 0),
+                    "auto_hosts": options_extra.get("auto_hosts", False),
+                    "to_nameserver": options_extra.get("to_nameserver"),
+                    "auto_nets": options_extra.get("auto_nets", False)}
+            got = k.get("options")
+            if got != want:
+                ev.append("OPTIONS-ALTERED:%r" % (sorted((got or {}).items()),))
             r = real_connect_fn(*a, **k)
             bd.sock.script[:] = [bytes(c) for c in server_chunks]
             bd.proc.rv = poll
@@ -1108,6 +1117,12 @@ def part_client(ctx):
                         ctx.violation("client wrote something other than the two uploads before the sync string was verified",
                                       {"trace": [e[:60] for e in ev], "server_deliveries": [hx(c) for c in sc], "poll": poll,
                                        "seed_hosts": None if seed is None else [s[:20] for s in seed], "accept": accept})
+                    alt = [e for e in ev if e.startswith("OPTIONS-ALTERED:")]
+                    if alt:
+                        ev = [e for e in ev if not e.startswith("OPTIONS-ALTERED:")]
+                        impl_s = ",".join(ev)
+                        ctx.violation("the client altered a session option between its own arguments and the packaged upload",
+                                      {"given": dict((k2, repr(v)) for k2, v in options.items()), "packaged": alt[0][16:][:400]})
                     if impl_s != m_ev:
                         ctx.disagree("client_startup trace", line[-300:], [e[:80] for e in ev], [e[:80] for e in m_ev.split(",")],
                                      holds=(len(wb) == 2))
